@@ -1026,13 +1026,20 @@ where
     #[inline]
     fn go<M: Mode>(&self, inp: &mut InputRef<'src, '_, I, E>) -> PResult<M, [O; N]> {
         let mut arr: [MaybeUninit<_>; N] = MaybeUninitExt::uninit_array();
-        self.parsers
-            .iter()
-            .zip(arr.iter_mut())
-            .try_for_each(|(p, res)| {
-                res.write(p.go::<M>(inp)?);
-                Ok(())
-            })?;
+        for (idx, p) in self.parsers.iter().enumerate() {
+            match p.go::<M>(inp) {
+                Ok(out) => {
+                    arr[idx].write(out);
+                }
+                Err(()) => {
+                    // SAFETY: exactly the first `idx` items have been initialized, and they would otherwise be leaked
+                    arr[..idx]
+                        .iter_mut()
+                        .for_each(|out| unsafe { out.assume_init_drop() });
+                    return Err(());
+                }
+            }
+        }
         // SAFETY: We guarantee that all parers succeeded and as such all items have been initialized
         //         if we reach this point
         Ok(M::array(unsafe { MaybeUninitExt::array_assume_init(arr) }))
